@@ -1497,8 +1497,26 @@ def _facts_at_direct(self, pos):
     return out
 
 
+def _facts_by_pred(self, bb, depth=0):
+    """for a block reached over several edges (a join, where no single branch fact dominates): one fact list per incoming edge — the
+    facts that hold at the end of the predecessor plus what that edge itself states; a predecessor that is a bare join is expanded in
+    turn (depth-bounded). Lets a rule ask "on EVERY way into this block, does X hold?"."""
+    out = []
+    for u in self.pred(bb):
+        if u not in self.live_blocks():
+            continue
+        fs = list(self.facts_at((u, len(self.blocks[u]["stmts"]))))
+        fs += [f["rel"] for f in self.body_facts() if f["u"] == u and f["v"] == bb]
+        if not fs and depth < 3 and len(self.pred(u)) > 1:
+            out.extend(_facts_by_pred(self, u, depth + 1))
+        else:
+            out.append(fs)
+    return out
+
+
 Body.body_facts = _body_facts
 Body.facts_at = _facts_at
+Body.facts_by_pred = _facts_by_pred
 
 
 def implies_ge(facts, a, b):
